@@ -75,5 +75,8 @@ def mixed_edge_moral_graph(
         for node in component:
             for parent in all_parents - {node}:
                 G_a.add_edge(node, parent)
+        # marry the parents of the district (they are collider-connected through it)
+        for u, v in itertools.combinations(all_parents, 2):
+            G_a.add_edge(u, v)
 
     return G_a
